@@ -133,7 +133,7 @@ AWS_STATIC_IMPL uint64_t aws_add_u64_saturating(uint64_t a, uint64_t b) {
 
     __asm__("addq %[arg1], %[arg2]\n" /* [arga] = [arga] + [argb] */
             "cmovc %q[saturate], %[arg2]\n"
-            : /* in/out: %rax = a, out: rdx (ignored) */ [arg2] "+r"(b)
+            : /* in/out: %rax = a, out: rdx (ignored) */ [arg2] "+&r"(b)
             : /* in: register only */ [arg1] "r"(a),
               /* in: saturation value (reg/memory) */ [saturate] "rm"(~0LL)
             : /* clobbers: cc */ "cc");
